@@ -114,20 +114,20 @@ theorem mem_dropLast_filter_snoc {α} (q : α → Bool) (ts : List α) (e x : α
 
 /-- the token list of a text satisfies the hypothesis of `spanT_spec`, as long as `$END$` is not
 consumed -/
-theorem noEq_of_tokens {p0 : Pos} {ts : List Tok} {e : Tok} (hl : Linked p0 (ts ++ [e]))
-    (hne : ∀ t ∈ ts, t.s < t.e) (he : e.s ≤ e.e) (skip : List Nat) :
-    NoEq ((dropSkipped skip (ts ++ [e])).map Tok.span)
-      (((dropSkipped skip (ts ++ [e])).map Tok.span).length - 1) := by
+theorem noEq_of_tokens_filter {p0 : Pos} {ts : List Tok} {e : Tok} (hl : Linked p0 (ts ++ [e]))
+    (hne : ∀ t ∈ ts, t.s < t.e) (he : e.s ≤ e.e) (q : Tok → Bool) :
+    NoEq (((ts ++ [e]).filter q).map Tok.span)
+      ((((ts ++ [e]).filter q).map Tok.span).length - 1) := by
   have hw : ∀ t ∈ ts ++ [e], t.s ≤ t.e := by
     intro t ht
     rcases List.mem_append.mp ht with h | h
     · exact Pos.le_of_lt (hne t h)
     · simp at h; subst h; exact he
   have hpw := Linked_pairwise hl hw
-  have hpw2 : ((dropSkipped skip (ts ++ [e])).map Tok.span).Pairwise (fun x y => x.e ≤ y.s) := by
+  have hpw2 : (((ts ++ [e]).filter q).map Tok.span).Pairwise (fun x y => x.e ≤ y.s) := by
     rw [List.pairwise_map]
     exact hpw.filter _
-  generalize hL : (dropSkipped skip (ts ++ [e])).map Tok.span = L at *
+  generalize hL : ((ts ++ [e]).filter q).map Tok.span = L at *
   have hdl : ∀ x ∈ L.dropLast, x.s < x.e := by
     intro x hx
     rw [← hL, ← List.map_dropLast] at hx
@@ -155,6 +155,12 @@ theorem noEq_of_tokens {p0 : Pos} {ts : List Tok} {e : Tok} (hl : Linked p0 (ts 
     rw [hae, hbe] at this
     exact Pos.ne_of_lt (Pos.lt_of_lt_of_le h1 (Pos.le_trans this (Pos.le_of_lt h2)))
 
+
+theorem noEq_of_tokens {p0 : Pos} {ts : List Tok} {e : Tok} (hl : Linked p0 (ts ++ [e]))
+    (hne : ∀ t ∈ ts, t.s < t.e) (he : e.s ≤ e.e) (skip : List Nat) :
+    NoEq ((dropSkipped skip (ts ++ [e])).map Tok.span)
+      (((dropSkipped skip (ts ++ [e])).map Tok.span).length - 1) :=
+  noEq_of_tokens_filter hl hne he _
 
 /-- the text as one string -/
 def flatText : Input → List Char
